@@ -204,6 +204,61 @@ void scen_nd(hx::Desc& d, int part) {
     if (v.empty()) SIM_CHECK(nchunks == 0, "oracle:empty-chunk", "body invoked for an empty iteration space");
 }
 
+// huge 2d / 3d / nd iteration spaces (extents and grain sizes of 2^20 .. 2^41 per dimension: size * grainsize products
+// beyond 2^64): chunk-level accounting only.  Every chunk non-empty and in bounds, a dimension whose size does not
+// exceed its grain size is never cut, chunks pairwise disjoint and their volumes add up to the whole space,
+// simple_partitioner leaves every cut dimension in [ceil(g/2), g].
+void scen_nd_huge(hx::Desc& d, int part) {
+    int dims = (int)sim::draw_range(2, 3, "dims");
+    int kind = (int)sim::draw(2, "ndkind");
+    size_t n[3] = {1, 1, 1}, g[3] = {1, 1, 1};
+    unsigned __int128 nchunks_bound = 1;
+    std::string s;
+    for (int k = 0; k < dims; ++k) {
+        int e = (int)sim::draw_range(20, 41, "grain_log2");
+        g[k] = ((size_t)1 << e) + (size_t)sim::draw(3, "gadj") - 1;
+        if (sim::draw(3, "indivisible") == 0) { static const size_t small[] = {1, 2, 3, 24, 1000}; n[k] = sim::draw(2, "full") ? g[k] : small[sim::draw(5, "small")]; }
+        else { size_t m = (size_t)sim::draw_range(1, 4, "mult"); n[k] = g[k] * m + (size_t)sim::draw(3, "rem") * (g[k] / 3); nchunks_bound *= 2 * (m + 1); }
+        s += hx::fmt(" [0,%zu)/g=%zu", n[k], g[k]);
+    }
+    if (nchunks_bound > 256) { n[0] = g[0]; }      // keep the number of chunks small
+    d.add(hx::fmt("parallel_for huge %dd %s%s %s (chunk accounting only)", dims, kind ? "blocked_nd_range" : "blocked_rangeNd", s.c_str(), kPart[part]));
+    d.publish();
+    struct Box { size_t b[3], e[3]; };
+    std::vector<Box> boxes;
+    auto rec = [&](size_t b0, size_t e0, size_t b1, size_t e1, size_t b2, size_t e2) {
+        Box x{{b0, b1, b2}, {e0, e1, e2}};
+        for (int k = 0; k < dims; ++k) {
+            SIM_CHECK(x.b[k] < x.e[k], "oracle:empty-chunk", "huge nd: body received a subrange that is empty in dimension %d: [%zu,%zu)", k, x.b[k], x.e[k]);
+            SIM_CHECK(x.e[k] <= n[k], "oracle:chunk-out-of-bounds", "huge nd: subrange [%zu,%zu) outside [0,%zu) in dimension %d", x.b[k], x.e[k], n[k], k);
+            if (n[k] <= g[k]) SIM_CHECK(x.b[k] == 0 && x.e[k] == n[k], "oracle:indivisible-split", "huge nd: dimension %d (size %zu <= grain %zu) is not divisible but was cut into [%zu,%zu)", k, n[k], g[k], x.b[k], x.e[k]);
+            else if (part == 0) { size_t sz = x.e[k] - x.b[k]; SIM_CHECK(sz <= g[k] && sz >= (g[k] + 1) / 2, "oracle:chunk-size-bound", "huge nd: simple_partitioner left dimension %d with extent %zu outside [ceil(g/2), g], g=%zu", k, sz, g[k]); }
+        }
+        boxes.push_back(x);
+        SIM_CHECK(boxes.size() <= 4000, "oracle:chunk-overlap", "huge nd: far too many chunks (splitting does not terminate?)");
+        sim::upoint();
+    };
+    tbb::affinity_partitioner ap;
+    if (dims == 2 && kind == 0) run_pfor(tbb::blocked_range2d<size_t>(0, n[0], g[0], 0, n[1], g[1]), [&](const tbb::blocked_range2d<size_t>& r) { rec(r.rows().begin(), r.rows().end(), r.cols().begin(), r.cols().end(), 0, 1); }, part, ap);
+    else if (dims == 3 && kind == 0) run_pfor(tbb::blocked_range3d<size_t>(0, n[0], g[0], 0, n[1], g[1], 0, n[2], g[2]),
+                                              [&](const tbb::blocked_range3d<size_t>& r) { rec(r.pages().begin(), r.pages().end(), r.rows().begin(), r.rows().end(), r.cols().begin(), r.cols().end()); }, part, ap);
+    else if (dims == 2) { using ND = tbb::blocked_nd_range<size_t, 2>; run_pfor(ND({0, n[0], g[0]}, {0, n[1], g[1]}), [&](const ND& r) { rec(r.dim(0).begin(), r.dim(0).end(), r.dim(1).begin(), r.dim(1).end(), 0, 1); }, part, ap); }
+    else { using ND = tbb::blocked_nd_range<size_t, 3>; run_pfor(ND({0, n[0], g[0]}, {0, n[1], g[1]}, {0, n[2], g[2]}),
+                                                                  [&](const ND& r) { rec(r.dim(0).begin(), r.dim(0).end(), r.dim(1).begin(), r.dim(1).end(), r.dim(2).begin(), r.dim(2).end()); }, part, ap); }
+    unsigned __int128 vol = 0, total = 1;
+    for (int k = 0; k < dims; ++k) total *= n[k];
+    for (size_t i = 0; i < boxes.size(); ++i) {
+        unsigned __int128 v = 1; for (int k = 0; k < dims; ++k) v *= boxes[i].e[k] - boxes[i].b[k];
+        vol += v;
+        for (size_t j = 0; j < i; ++j) {
+            bool overlap = true;
+            for (int k = 0; k < dims; ++k) if (boxes[i].e[k] <= boxes[j].b[k] || boxes[j].e[k] <= boxes[i].b[k]) overlap = false;
+            SIM_CHECK(!overlap, "oracle:chunk-overlap", "huge nd: chunks #%zu and #%zu overlap", j, i);
+        }
+    }
+    SIM_CHECK(vol == total, "oracle:chunk-gap", "huge nd: the chunks cover %s of the iteration space", vol < total ? "less than all" : "more than all");
+}
+
 void scen_for_each(hx::Desc& d) {
     int n = (int)draw_size() % 40;
     bool fwd = sim::draw_bool("forward_iter");
@@ -261,7 +316,7 @@ SIM_SCENARIO(scen_c05, "c05", "C05", 6000000, 30000) {
         switch (kind) {
         case 0: case 1: case 2: scen_1d(d, part); break;
         case 3: scen_int(d, part); break;
-        case 4: case 5: scen_nd(d, part); break;
+        case 4: case 5: if (sim::draw(3, "nd_huge") == 0) scen_nd_huge(d, part); else scen_nd(d, part); break;
         case 6: scen_for_each(d); break;
         default: scen_invoke(d); break;
         }
